@@ -5,10 +5,10 @@ their references lives in spec/Engine.tla); ENTRIES: the ones used as entry poin
 """
 from __future__ import annotations
 
-OWN = ["plain", "caller", "main0", "bad_type", "calls_bad", "ct_good", "ct_bad", "ct_expr", "closure", "first", "use_generic",
-       "mono", "use_mono", "Pt", "use_struct", "ov_int", "ov_float", "over", "use_over", "loops", "n"]
-ENTRIES = ["plain", "caller", "main0", "bad_type", "calls_bad", "ct_good", "ct_bad", "ct_expr", "closure", "use_generic",
-           "use_mono", "use_struct", "use_over", "loops"]
+OWN = ["plain", "caller", "main0", "bad_type", "calls_bad", "ct_good", "ct_bad", "ct_many", "ct_expr", "closure", "first", "use_generic",
+       "mono", "use_mono", "Pt", "use_struct", "ov_int", "ov_float", "over", "use_over", "long_names", "loops", "n"]
+ENTRIES = ["plain", "caller", "main0", "bad_type", "calls_bad", "ct_good", "ct_bad", "ct_many", "ct_expr", "closure", "use_generic",
+           "use_mono", "use_struct", "use_over", "long_names", "loops"]
 
 PRELUDE = """\
 from guppylang import guppy, comptime
@@ -54,8 +54,19 @@ def ct_good(x: int) -> int:
 
 @guppy.comptime
 def ct_bad(x: int) -> int:
-    y = x + plain(1)
+    y = x
+    for i in range(4):
+        y = y + plain(i)
     return y + [1, 2][5]
+
+
+@guppy.comptime
+def ct_many(x: int) -> int:
+    # uses > 100 generated temporaries: pushes the session counter past two digit boundaries
+    y = x
+    for i in range(35):
+        y = y + plain(i)
+    return y
 
 
 @guppy
@@ -132,6 +143,18 @@ def over(*args): ...
 @guppy
 def use_over(a: int, b: float) -> float:
     return over(a) + over(b)
+
+
+@guppy
+def long_names(n: int) -> int:
+    total = 0
+    totals = 1.5
+    for i in range(n):
+        total += i
+        totals = totals + 1.0
+    if totals > 3.0:
+        total += 1
+    return total
 
 
 @guppy
